@@ -39,7 +39,7 @@ def stacks(block):
             cur = None
             continue
         if cur is not None:
-            m = re.match(r"^  (\S.*?)\(", line)
+            m = re.match(r"^  (\S.*)\(", line)
             if m and not line.startswith("      "):
                 cur[1].append(m.group(1))
     return out[:2]
